@@ -25,17 +25,35 @@ NOTES = ("All checks are solver-based: gosmt symbolically executes the go/ssa fo
 for _p in ["C%02d" % i for i in range(1, 21)]:
     PROPS[_p] = dict(jobs=[], na_reason="check not built yet in this session (plan: DESIGN.md §3)")
 
+LIMBS = {"ecc/bls12-377/fp": 6, "ecc/bls12-381/fp": 6, "ecc/bw6-761/fr": 6, "ecc/bls24-315/fp": 5, "ecc/bls24-317/fp": 5,
+         "ecc/bw6-633/fr": 5, "ecc/bw6-633/fp": 10, "ecc/bw6-761/fp": 12}
+
+
+def limbs(f):
+    return LIMBS.get(f, 4)
+
+
+NOCARRY = [f for f in FIELDS64 if "secp256k1" not in f]
+MUL_SLOW = ["ecc/bls12-381/fp", "ecc/bw6-633/fp", "ecc/bw6-761/fp"]  # 6/10/12 limbs: round lemmas need the long timeout
+
 PROPS["C01"] = dict(
-    jobs=[Job(f, ["C01/common.go.tmpl", "C01/linear.go.tmpl"], params=dict(WordBits=wordbits(f))) for f in ALL_FIELDS],
-    level_text="Bounded proof: for each of the 23 field packages the listed arithmetic entry points are symbolically "
-               "executed at full width (all limbs symbolic, operands < q) and compared with math/big oracles; every "
-               "obligation is unsat in z3/cvc5.",
-    level_note="Trusted: go/ssa, the gosmt encoder (integers as mathematical Ints with explicit wrap-around), the solvers. "
-               "purego build is what is encoded.",
-    explanation="",
-    bounds="full-width operands; no loops except fixed limb loops",
-    outside="assembly back ends (C09)",
-    assumptions=["operands are reduced (integer value of the limbs < q)"],
+    jobs=[Job(f, ["C01/common.go.tmpl", "C01/linear.go.tmpl"], params=dict(WordBits=wordbits(f))) for f in ALL_FIELDS] +
+         [Job(f, ["C01/exp.go.tmpl"], label=f + "#exp", params=dict(ExpBits=8, ExpUnroll=18, PkgSuffix=f.split("/", 1)[1] if f.startswith("ecc/") else f.split("/")[-1])) for f in ALL_FIELDS] +
+         [Job(f, ["C01/common.go.tmpl", "C01/mul_nocarry.go.tmpl"], label=f + "#mul",
+              tier="thorough" if f in MUL_SLOW else "quick", timeout_ms=300000 if f in MUL_SLOW else 60000,
+              params=dict(WordBits=64, TVars="+".join("t%d" % i for i in range(limbs(f))))) for f in NOCARRY],
+    level_text="Bounded proof per field package: linear operations and predicates at full width against math/big (all 23 "
+               "fields); Montgomery multiplication of the no-carry fields by one lemma per round (cut at each multiplier word, "
+               "the code's quotient word as witness) plus the final subtraction and an arithmetic closing step; Exp by any "
+               "integer in the exponent interpretation (|k| < 2^8 symbolic, special multi-word exponents of both signs).",
+    level_note="Products of two symbolic words are the uninterpreted umul shared by code and specification, with the row bound "
+               "x_r*Y <= (2^64-1)(q-1) as the only assumed fact; counterexamples found in that abstraction are re-solved with one "
+               "operand pinned (exact query) and replayed natively. purego build is what is encoded.",
+    explanation="linear ops: Add Sub Neg Double Halve Select Equal NotEqual IsZero IsOne smallerThanModulus SetZero SetOne; "
+                "Mul (15 of 18 no-carry fields in the quick tier, the 6/10/12-limb base fields in the thorough tier); Exp",
+    bounds="full-width operands < q; Exp: |k| < 2^8 symbolic + 32 special exponents",
+    outside="Square, fromMont, Inverse, Sqrt, Legendre, BatchInvert, small-field Mul, secp256k1 (CIOS) Mul: not yet covered; assembly back ends (C09)",
+    assumptions=["operands are reduced", "umul(a,b) denotes a*b: only the row bound is used"],
 )
 
 PROPS["C13"] = dict(
